@@ -15,7 +15,9 @@ RULE = ("component alphabet includes '-', '_', '.', digits, upper/lower-case pai
         "probed with every logger name, its parent, a child, the textual sibling (name+'x', name minus a "
         "byte), and stray-colon targets ('', ':', '::', 'a:', 'a:::b', '::a', 'a::', ...) at all 5 levels. "
         "In about half of the cases a random non-empty subset of the appenders returns Err after recording "
-        "the call (fault injection: deliveries must be unaffected). "
+        "the call (fault injection: deliveries must be unaffected). In about a fifth of the cases one appender, while "
+        "handling each record, logs one of the probes as a record of its own through the same Logger (re-entrant "
+        "log call from inside an appender): the follow-up must be routed like any record. "
         "non-trivial = config with >= 1 logger and a probe whose effective logger is not the root; "
         "distinct = distinct case line")
 ASSUMPTIONS = ["configs are built through Config::builder().build (valid: unique names accepted by "
@@ -82,7 +84,15 @@ def mk_case(apps, root, loggers, rng, extra=()):
     failing = []
     if apps and rng.chance(1, 2):
         failing = [i for i in range(len(apps)) if rng.chance(1, 2)] or [rng.below(len(apps))]
-    return [list(apps), root, loggers, probes_for([l[0] for l in loggers], rng, extra), failing]
+    case = [list(apps), root, loggers, probes_for([l[0] for l in loggers], rng, extra), failing]
+    if apps and rng.chance(1, 5):
+        # re-entrancy: one appender logs one of the probes (a record of its own) while handling each record
+        cand = [i for i, (t, L) in enumerate(case[3]) if L >= 1]
+        # the follow-up must not itself reach the re-entrant appender more than once per level of nesting:
+        # it carries message "k", which the appender does not follow up, so the recursion depth is 1
+        if cand:
+            case.append([rng.below(len(apps)), rng.choice(cand)])
+    return case
 
 
 def rand_attach(rng, apps, maxn=3):
@@ -185,10 +195,34 @@ def describe(c):
             "probes": len(c[3]), "failing_appenders": c[4] if len(c) > 4 else []}
 
 
+def model_lines(ctx, cases, lines, impl_lines):
+    """the model sees the routing case only (the re-entrant follow-up rule is judged from its probe results)"""
+    vc = ctx["vc"]
+    return [vc.show(c[:5]) if len(c) > 5 else ln for c, ln in zip(cases, lines)]
+
+
 def compare(c, impl, model):
+    if len(c) > 5 and isinstance(impl, list) and len(impl) == len(c[3]) + 1 and isinstance(model, list) \
+            and len(model) == len(c[3]):
+        app, pi = c[5]
+        nested = impl[-1]
+        impl = impl[:-1]
+        if not isinstance(nested, list) or len(nested) != len(model):
+            return "nested result shape differs"
+        for (t, L), got, b in zip(c[3], nested, model):
+            want = sorted(model[pi] * sum(1 for x in b if x == app))
+            if not isinstance(got, list) or sorted(got) != want:
+                return ("target %r level %d: appender %d logs a follow-up record (target %r level %d) from inside append; "
+                        "the follow-up reached appenders %r, routing prescribes %r" % (
+                            t, L, app, c[3][pi][0], c[3][pi][1], got, want))
     if not isinstance(impl, list) or not isinstance(model, list) or len(impl) != len(model) or len(impl) != len(c[3]):
         return "result shape differs: impl=%r model=%r" % (str(impl)[:100], str(model)[:100])
     for (t, L), a, b in zip(c[3], impl, model):
         if not isinstance(a, list) or not isinstance(b, list) or sorted(a) != sorted(b):
             return "target %r level %d: delivered to appenders %r, routing prescribes %r" % (t, L, a, b)
     return None
+
+
+def extra_checks(ctx, cases, impl_lines, model_lines):
+    from gen import xcheck
+    return xcheck.concurrent_reconfig(ctx, "routing under concurrent reconfiguration", levels=True, plain=False)
